@@ -18,15 +18,16 @@ import (
 
 // config is one point of the configuration space.
 type config struct {
-	Size  int    `json:"size"`
-	Skip  int    `json:"skip_last_n"`
-	Max   int    `json:"max_nacks"`
-	Start uint16 `json:"start"`
-	Depth int    `json:"depth"`
-	Two   bool   `json:"two_ssrcs"`
-	Long  int    `json:"long_stall_ticks,omitempty"`
-	Syms  []int  `json:"symbols,omitempty"` // restricted alphabet (nil = all that stay within 2^15-1 of the highest)
-	First int    `json:"first_symbol"`      // shard: histories that start with this symbol (-1: not sharded)
+	Size      int    `json:"size"`
+	Skip      int    `json:"skip_last_n"`
+	Max       int    `json:"max_nacks"`
+	Start     uint16 `json:"start"`
+	Depth     int    `json:"depth"`
+	Two       bool   `json:"two_ssrcs"`
+	Long      int    `json:"long_stall_ticks,omitempty"`
+	SkipFirst bool   `json:"skip_option_before_size_option,omitempty"`
+	Syms      []int  `json:"symbols,omitempty"` // restricted alphabet (nil = all that stay within 2^15-1 of the highest)
+	First     int    `json:"first_symbol"`      // shard: histories that start with this symbol (-1: not sharded)
 }
 
 // allowed lists the symbols whose offset keeps the arrival within 2^15-1 of
@@ -44,6 +45,9 @@ func (c config) allowed() []int {
 		if off, ok := c.offset(a); ok && (off > 0x7FFF || off < -0x7FFF) {
 			continue
 		}
+		if a >= 17 && c.Skip < 5 {
+			continue // steps relative to skipLastN coincide with +1..+3 for small values
+		}
 		out = append(out, a)
 	}
 	return out
@@ -52,7 +56,7 @@ func (c config) allowed() []int {
 const interval = 100 * time.Millisecond
 
 // symbol names; offsets are relative to the highest true number received (H) and the window S.
-var symNames = []string{"+1", "+2", "+3", "+S-1", "+S", "+S+1", "+2S", "+0x7FFF", "dup", "-1", "-2", "-(S-1)", "-S", "-(S+1)", "-2S", "fill", "T"}
+var symNames = []string{"+1", "+2", "+3", "+S-1", "+S", "+S+1", "+2S", "+0x7FFF", "dup", "-1", "-2", "-(S-1)", "-S", "-(S+1)", "-2S", "fill", "T", "+K-1", "+K", "+K+1"} // K = skipLastN
 
 const symTick = 16
 
@@ -89,6 +93,8 @@ func (c config) offset(sym int) (int64, bool) {
 		return -(s + 1), true
 	case 14:
 		return -2 * s, true
+	case 17, 18, 19:
+		return int64(c.Skip) + int64(sym) - 18, true
 	}
 	return 0, false
 }
@@ -200,6 +206,9 @@ func newSystem(c config) (*system, error) {
 	if c.Size == 32768 {
 		// GeneratorSize takes a uint16: 32768 fits
 		opts[0] = nack.GeneratorSize(32768)
+	}
+	if c.SkipFirst {
+		opts[0], opts[1] = opts[1], opts[0] // options are documented as independent: their order must not matter
 	}
 	f, err := nack.NewGeneratorInterceptor(opts...)
 	if err != nil {
@@ -495,6 +504,11 @@ func configs(tier string) []config {
 		for _, skip := range []int{0, 1} {
 			out = append(out, config{Size: 64, Skip: skip, Max: max, Start: 65530, Depth: deep, Syms: []int{0, 1, 8, 9, 15, 16}})
 		}
+	}
+	// a large skipLastN (beyond the default window of 512) with a larger window, options given in both orders;
+	// steps that put a loss just inside / outside the skipped tail
+	for _, sf := range []bool{false, true} {
+		out = append(out, config{Size: 1024, Skip: 600, Max: 0, Start: 65000, Depth: deep - 2, SkipFirst: sf, Syms: []int{0, 1, 17, 18, 19, 9, 15, 16}})
 	}
 	// two SSRCs on one interceptor (product alphabet): independence
 	out = append(out, config{Size: 64, Skip: 0, Max: 1, Start: 65530, Depth: 3, Two: true})
